@@ -15,4 +15,5 @@ Definition gen_encode_sites : list (string * string * string) :=
     ("src/services/types.rs", "add_raw", "calls_encode");
     ("src/services/verifier.rs", "normalize_encoded_attr", "parses_i32");
     ("src/services/w3c/types.rs", "add", "parses_i32");
-    ("src/services/w3c/verifier.rs", "check_requested_attribute", "calls_encode") ].
+    ("src/services/w3c/verifier.rs", "check_requested_attribute", "calls_encode");
+    ("src/services/w3c/verifier.rs", "verify_credential_subject", "calls_encode") ].
